@@ -115,6 +115,7 @@ theorem strcpy_s_C06_same (cfg : Cfg) (dest dmax : Nat) (destbos : Bos) (st : St
   unfold strcpy_s
   rw [strcpyG_same _ cfg dest dmax destbos hd hpos hle hb]; rfl
 
+/-- the wide twin of `strcpy_s_C06_same` (cells are `wchar_t`, limit `RSIZE_MAX_WSTR`, known object sizes in bytes) -/
 theorem wcscpy_s_C06_same (cfg : Cfg) (dest dmax : Nat) (destbos : Bos) (st : St)
     (hd : dest ≠ 0) (hpos : 0 < dmax) (hle : dmax ≤ RSIZE_MAX_WSTR)
     (hb : ∀ b, destbos = some b → dmax * SIZEOF_WCHAR_T ≤ b) :
@@ -170,6 +171,7 @@ theorem strncpy_s_C06_slen0 (cfg : Cfg) (dest dmax src : Nat) (destbos srcbos : 
   rw [strncpyG_slen0 _ cfg dest dmax src destbos srcbos hd hpos]
   simp [exec_bind, exec_store_ok _ _ _ hm hw]
 
+/-- the wide twin of `strncpy_s_C06_slen0` (cells are `wchar_t`, limit `RSIZE_MAX_WSTR`, known object sizes in bytes) -/
 theorem wcsncpy_s_C06_slen0 (cfg : Cfg) (dest dmax src : Nat) (destbos srcbos : Bos) (st : St)
     (hd : dest ≠ 0) (hpos : 0 < dmax) (hrw : RW st dest dmax) :
     exec (wcsncpy_s cfg dest dmax src 0 destbos srcbos) st = .ok (EOK, st.upd dest 0) := by
@@ -257,7 +259,7 @@ private theorem catC06_of_all {cfg : Cfg} {dest dmax dl src m : Nat} {st st' : S
       fun hc => absurd hc (by decide), fun _ => ?_⟩
     exact ⟨hp.2.2.1, hp.2.2.2.1, hp.2.1, hp.1, hp.2.2.2.2⟩
 
-theorem cells_add (st : St) (p a b : Nat) : cells st p (a + b) = cells st p a ++ cells st (p + a) b := by
+private theorem cells_add (st : St) (p a b : Nat) : cells st p (a + b) = cells st p a ++ cells st (p + a) b := by
   induction a generalizing p with
   | zero => simp [cells]
   | succ a ih =>
@@ -296,6 +298,7 @@ theorem strcat_s_C06_all (cfg : Cfg) (dest dmax src dl n : Nat) (destbos : Bos) 
     (Or.inl ⟨fun h => absurd h (by decide), hnul⟩)
   exact ⟨code, st', he, catC06_of_all hdl hp⟩
 
+/-- the wide twin of `strcat_s_C06_all` (cells are `wchar_t`, limit `RSIZE_MAX_WSTR`, known object sizes in bytes) -/
 theorem wcscat_s_C06_all (cfg : Cfg) (dest dmax src dl n : Nat) (destbos : Bos) (st : St)
     (hall : ∀ a, st.mapped a = true ∧ st.rd a = true)
     (hd : dest ≠ 0) (hs : src ≠ 0) (hpos : 0 < dmax) (hle : dmax ≤ RSIZE_MAX_WSTR)
@@ -330,6 +333,7 @@ theorem strncat_s_C06_all (cfg : Cfg) (dest dmax src slen dl m : Nat) (destbos s
     (hfin.elim (fun h => Or.inl ⟨fun _ => h.1, h.2⟩) (fun h => Or.inr ⟨rfl, h⟩))
   exact ⟨code, st', he, catC06_of_all hdl hp⟩
 
+/-- the wide twin of `strncat_s_C06_all` (cells are `wchar_t`, limit `RSIZE_MAX_WSTR`, known object sizes in bytes) -/
 theorem wcsncat_s_C06_all (cfg : Cfg) (dest dmax src slen dl m : Nat) (destbos srcbos : Bos) (st : St)
     (hall : ∀ a, st.mapped a = true ∧ st.rd a = true)
     (hd : dest ≠ 0) (hs : src ≠ 0) (hpos : 0 < dmax) (hle : dmax ≤ RSIZE_MAX_WSTR)
@@ -405,6 +409,7 @@ theorem strncat_s_C06_slen0 (cfg : Cfg) (dest dmax src dl : Nat) (destbos srcbos
   simp only [exec_bind] at hx
   exact ⟨_, st', hx, rfl, hp.2.2.1, hp.2.2.2.1, hp.2.1, hp.1, hp.2.2.2.2⟩
 
+/-- the wide twin of `strncat_s_C06_slen0` (cells are `wchar_t`, limit `RSIZE_MAX_WSTR`, known object sizes in bytes) -/
 theorem wcsncat_s_C06_slen0 (cfg : Cfg) (dest dmax src dl : Nat) (destbos srcbos : Bos) (st : St)
     (hall : ∀ a, st.mapped a = true ∧ st.rd a = true)
     (hd : dest ≠ 0) (hs : src ≠ 0) (hpos : 0 < dmax) (hle : dmax ≤ RSIZE_MAX_WSTR)
